@@ -137,7 +137,39 @@ def run(tier, replay):
             texts.append(("deep", "PRINT " + "LEN(STR$(" * depth + "1" + "))" * depth + "\r\n"))
             texts.append(("deep", "".join("SELECT CASE %d\r\nCASE %d\r\n" % (k, k) for k in range(depth)) + "END SELECT\r\n" * depth))
             texts.append(("deep", "".join("DO\r\n" for _ in range(depth)) + "LOOP\r\n" * depth))
+        # SEVERAL faults of one kind in one text (two to four subprograms declared and not implemented, named like built-ins,
+        # defined twice; jumps to labels that do not exist; ill-typed statements): still ONE error, and the same one every time
+        import itertools
+        names = ["Alpha", "Beta", "Gamma", "Delta"]
+        builtins = ["Val", "Eof", "Peek", "Len", "Chr$", "Str$"]
+        for k in (2, 3, 4):
+            for perm in list(itertools.permutations(names[:k]))[:6]:
+                texts.append(("several-faults", "".join("DECLARE FUNCTION %s! (x!)\r\n" % n for n in perm) + 'PRINT "hi"\r\n'))
+                texts.append(("several-faults", "".join("DECLARE SUB %s (x!)\r\n" % n for n in perm) + 'PRINT "hi"\r\n'))
+                texts.append(("several-faults", 'PRINT "hi"\r\n' + "".join("SUB %s\r\nEND SUB\r\nSUB %s\r\nEND SUB\r\n" % (n, n) for n in perm)))
+                texts.append(("several-faults", "".join("GOTO %s\r\n" % n for n in perm) + 'PRINT "hi"\r\n'))
+                texts.append(("several-faults", "".join('%s%% = "a"\r\n' % n for n in perm)))
+                texts.append(("several-faults", "".join("PRINT %s(1, 2)\r\n" % n for n in perm) + "".join("FUNCTION %s (x)\r\nEND FUNCTION\r\n" % n for n in perm)))
+            for perm in list(itertools.permutations(builtins, k))[:10]:
+                texts.append(("several-faults", 'PRINT "hi"\r\n' + "".join("FUNCTION %s (x)\r\nEND FUNCTION\r\n" % n for n in perm)))
+                texts.append(("several-faults", 'PRINT "hi"\r\n' + "".join("SUB %s (x)\r\nEND SUB\r\n" % n.replace("$", "") for n in perm)))
     resps = pool.map([{"op": "run", "text": t, "upto": "lint"} for c, t in texts], timeout=15)
+    # "a single error": the outcome is a function of the text.  Every text that ended in an error is checked again (the texts with
+    # several faults three times more), in whatever worker is free: class and position must be the same
+    def err_sig(r):
+        return None if not r else (r.get("stage"), json.dumps(r.get("error"), sort_keys=True), "panic" in r)
+    again = [i for i, ((c, t), r) in enumerate(zip(texts, resps)) if r and r.get("stage") in ("parse", "lint") and r.get("error")]
+    rng.shuffle(again)
+    again = sorted(again[: (6000 if tier == "quick" else 60000)] + [i for i in again if texts[i][0] == "several-faults"] * 3)
+    resps2 = pool.map([{"op": "run", "text": texts[i][1], "upto": "lint"} for i in again], timeout=15)
+    unstable = {}
+    for i, r2 in zip(again, resps2):
+        if r2 and not r2.get("timeout") and err_sig(r2) != err_sig(resps[i]) and i not in unstable:
+            unstable[i] = r2
+    for i, r2 in unstable.items():
+        rep.violation({"class": texts[i][0], "text": texts[i][1], "observed": {"first": resps[i].get("error"), "again": r2.get("error")},
+                       "expected": "the same single error every time the same text is checked"},
+                      {"class:" + texts[i][0], "unstable"}, name="unstable")
     recs, meta = [], {}
     for i, ((cls, t), resp) in enumerate(zip(texts, resps)):
         rid = i + 1
@@ -170,7 +202,7 @@ def run(tier, replay):
         "samples": [{"class": meta[r["id"]][0], "text": meta[r["id"]][1][:200], "outcome": r["stage"] + "/" + r["kind"], "row": r["row"], "col": r["col"]}
                     for r in recs[:: max(1, len(recs) // 4)][:4]],
         "states": states + s2, "transitions": trans + t2, "traces_validated_against_impl": len(recs),
-        "texts_by_class": classes, "outcomes": kinds,
+        "texts_by_class": classes, "outcomes": kinds, "texts_checked_again_for_the_same_outcome": len(again),
         "design_check": {"module": "MC_Text", "distinct_states": res0.distinct, "invariants": ["MachineIsDefinition", "RowsMonotone"]},
         "checker_cmd": cmd, "exhaustive": False,
     }
